@@ -298,12 +298,21 @@ func TestC35(t *testing.T) {
 		"(6^6 = 46656 tables, loaded as YAML text through YAMLACL.Import into a fresh ACL) x query user {u1,u2,superuser} x " +
 		"query scope {s1,s2,unknown} x required {o,oo,ooo,s}, compared with the four-step precedence of the statement. " +
 		"C (rapid): random tables over 5 users + _default x 4 scopes + _default with any of the 79 values, quoted/plain " +
-		"perm text, 1..4 successive imports into the same ACL (update path), all queries with required drawn from 2..79. " +
-		"non-trivial decision: taken at step 2, 3 or 4 (a fallback was needed); B cases are distinct by construction, C by (tables, queries)")
+		"perm text, 1..4 successive imports of unrelated tables into the same ACL, all queries with required drawn from 2..79. " +
+		"B' (exhaustive): updates of a LOADED table: every table A over the same 6 cells with values {absent,x,oo} (729) is in force, " +
+		"then every table B that differs from A in exactly one cell (entry added, dropped or changed; 8748 directed edges, both " +
+		"directions, alternating text order/quoting) is imported into the same ACL, plus A re-imported with users and scopes in " +
+		"another order; after each import all (user, scope, required {o,oo,ooo}) are compared with the model on the LATEST table. " +
+		"D (rapid): update sequences on one live ACL over 5 users + _default x 4 scopes + _default: 1..5 successor tables derived " +
+		"from the table in force by gain (users keep every entry and gain 1..3, half of them explicit prohibits), gain-default " +
+		"(a user or the default user gains `_default`), change, drop, reorder (same table, permuted text), same, add-user, " +
+		"remove-user, fresh; after every update all 6 users x 5 scopes x 2 required levels are compared with the model on the latest table. " +
+		"non-trivial decision: taken at step 2, 3 or 4 (a fallback was needed); B, B' cases are distinct by construction, C, D by (tables, queries)")
 	r.Floor(1000)
 	r.Assume("`required` ranges over the allow permissions (read and above): callers pass ReadAllowACLPerm/WriteAllowACLPerm/NewAllowACLPerm(n); `assigned` over all valid permissions",
 		"users in a table are public keys or `_default`; the superuser never has a table entry (setUser rejects it)",
-		"the assigned permission returned by Allow is compared with the deciding entry (behaviour documented by the in-tree tests)")
+		"the assigned permission returned by Allow is compared with the deciding entry (behaviour documented by the in-tree tests)",
+		"after a table is re-imported into a live ACL (start-up load, then the runtime ACL writer of launch/p_node_rw.go) the table the statement talks about is the LATEST imported one; the `updated` result of Import is not judged; an empty body is not a table (Import ignores it) and is never sent")
 
 	w := c35NewWorld(t)
 
@@ -697,6 +706,207 @@ func TestC35(t *testing.T) {
 
 		if nontrivial && nImports > 1 && r.WantSample() {
 			r.Sample(map[string]any{"part": "random", "imports_and_queries": fp.String()})
+		}
+	})
+
+	// ---- D. update sequences on one live ACL: a table is loaded, then successor tables DERIVED from the one in
+	// force are imported (entries only gained / changed / dropped / text reordered / user added or removed / unrelated
+	// table); after every update every (user, scope) is asked and compared with the model on the LATEST table.
+	// What Import reports as "updated" is not judged; the decisions are.
+	upUsers := append([]string{w.superuser}, allUsers[1:]...)
+	upScopes := []string{"s1", "s2", "s3", "s4", "s9"}
+	opNames := []string{"gain", "gain", "gain-default", "change", "drop", "reorder", "same", "add-user", "remove-user", "fresh"}
+
+	drawTable := func(rt *rapid.T) c35Table {
+		tb := c35Table{}
+
+		for _, u := range allUsers {
+			if rapid.IntRange(0, 3).Draw(rt, "userKind") == 0 {
+				continue
+			}
+
+			for _, s := range allScopes {
+				if rapid.IntRange(0, 2).Draw(rt, "cell") != 0 {
+					continue // sparse: leaves room to gain entries
+				}
+
+				if tb[u] == nil {
+					tb[u] = map[string]int{}
+				}
+
+				tb[u][s] = permGen.Draw(rt, "perm")
+			}
+		}
+
+		if len(tb) < 1 {
+			tb[c35DefaultName] = map[string]int{rapid.SampledFrom(allScopes).Draw(rt, "scope"): permGen.Draw(rt, "perm")}
+		}
+
+		return tb
+	}
+
+	// the permission for a gained entry: an explicit prohibit half of the time (the entry the statement makes final)
+	gainGen := rapid.OneOf(rapid.Just(c35Prohibit), permGen)
+
+	r.Checks(700, 30000)
+	rapid.Check(t, func(rt *rapid.T) {
+		acl := w.newACL(rt)
+
+		cur := drawTable(rt)
+		curYAML := c35YAML(cur, allUsers, allScopes, rapid.Bool().Draw(rt, "quote"))
+		c35Import(rt, acl, w, curYAML)
+
+		var fp strings.Builder
+
+		fmt.Fprintf(&fp, "%s|", c35Redact(w, curYAML))
+
+		nontrivial := false
+		classes := map[string]bool{}
+
+		nUpdates := rapid.IntRange(1, 5).Draw(rt, "updates")
+		for up := 0; up < nUpdates; up++ {
+			op := rapid.SampledFrom(opNames).Draw(rt, "op")
+			next := c35Clone(cur)
+
+			// operations that are not applicable to the table in force degrade to "change" (always applicable: a
+			// loaded table has at least one entry)
+			switch op {
+			case "gain", "gain-default":
+				cand := c35CellsOf(next, allUsers, allScopes, false, true)
+
+				if op == "gain-default" {
+					var d [][2]string
+
+					for _, c := range cand {
+						if c[1] == c35DefaultName {
+							d = append(d, c)
+						}
+					}
+
+					cand = d
+				}
+
+				if len(cand) < 1 {
+					op = "change"
+
+					break
+				}
+
+				n := rapid.IntRange(1, 3).Draw(rt, "gained")
+				for i := 0; i < n; i++ {
+					c := rapid.SampledFrom(cand).Draw(rt, "gainCell")
+					next[c[0]][c[1]] = gainGen.Draw(rt, "gainPerm") // every previous entry stays as it is
+				}
+			case "drop":
+				if cand := c35CellsOf(next, allUsers, allScopes, true, true); len(cand) > 1 {
+					c := rapid.SampledFrom(cand).Draw(rt, "dropCell")
+
+					delete(next[c[0]], c[1])
+
+					if len(next[c[0]]) < 1 {
+						delete(next, c[0]) // a user without entries cannot be written: the user leaves the table
+					}
+				} else {
+					op = "change"
+				}
+			case "add-user":
+				var absent []string
+
+				for _, u := range allUsers {
+					if len(next[u]) < 1 {
+						absent = append(absent, u)
+					}
+				}
+
+				if len(absent) < 1 {
+					op = "change"
+
+					break
+				}
+
+				u := rapid.SampledFrom(absent).Draw(rt, "newUser")
+				next[u] = map[string]int{}
+
+				n := rapid.IntRange(1, 3).Draw(rt, "newEntries")
+				for i := 0; i < n; i++ {
+					next[u][rapid.SampledFrom(allScopes).Draw(rt, "newScope")] = gainGen.Draw(rt, "newPerm")
+				}
+			case "remove-user":
+				var loaded []string
+
+				for _, u := range allUsers {
+					if len(next[u]) > 0 {
+						loaded = append(loaded, u)
+					}
+				}
+
+				if len(loaded) < 2 {
+					op = "change"
+
+					break
+				}
+
+				delete(next, rapid.SampledFrom(loaded).Draw(rt, "goneUser"))
+			case "fresh":
+				next = drawTable(rt)
+			}
+
+			if op == "change" {
+				cand := c35CellsOf(next, allUsers, allScopes, true, true)
+				c := rapid.SampledFrom(cand).Draw(rt, "changeCell")
+				old := next[c[0]][c[1]]
+
+				np := rapid.OneOf(rapid.Just(c35Prohibit), permGen).Filter(func(p int) bool { return p != old }).Draw(rt, "changePerm")
+				next[c[0]][c[1]] = np
+			}
+
+			// the text: users and scopes in a drawn order ("reorder" and "same" differ only here)
+			users, scopes := allUsers, allScopes
+			if op != "same" && (op == "reorder" || rapid.Bool().Draw(rt, "permute")) {
+				users = rapid.Permutation(allUsers).Draw(rt, "userOrder")
+				scopes = rapid.Permutation(allScopes).Draw(rt, "scopeOrder")
+			}
+
+			nextYAML := c35YAML(next, users, scopes, rapid.Bool().Draw(rt, "quote"))
+			c35Import(rt, acl, w, nextYAML)
+
+			fmt.Fprintf(&fp, "%s>%s|", op, c35Redact(w, nextYAML))
+			classes["op:"+op] = true
+
+			reqs := [2]int{2, reqGen.Draw(rt, "required")}
+			both := c35Both(curYAML, nextYAML)
+			how := fmt.Sprintf("update %d of %d on one ACL (%s)", up+1, nUpdates, op)
+
+			for _, u := range upUsers {
+				for _, s := range upScopes {
+					for _, req := range reqs {
+						step := c35Judge(rt, r, acl, next, cur, w, u, s, req, both, how)
+
+						if step >= 2 && step <= 4 {
+							nontrivial = true
+							classes[fmt.Sprintf("ustep:%d", step)] = true
+						}
+					}
+				}
+			}
+
+			fmt.Fprintf(&fp, "%d;", reqs[1])
+
+			cur, curYAML = next, nextYAML
+		}
+
+		cl := []string{"part:update"}
+
+		for _, c := range []string{"op:gain", "op:gain-default", "op:change", "op:drop", "op:reorder", "op:same", "op:add-user", "op:remove-user", "op:fresh", "ustep:2", "ustep:3", "ustep:4"} {
+			if classes[c] {
+				cl = append(cl, c)
+			}
+		}
+
+		r.Case(fp.String(), nontrivial, cl...)
+
+		if nontrivial && classes["op:gain"] && r.WantSample() {
+			r.Sample(map[string]any{"part": "update", "tables_ops_required": fp.String()})
 		}
 	})
 }
